@@ -40,6 +40,9 @@ def cPair (p : Bytes × Bytes) : List Bytes := cString p.1 ++ cString p.2
 def cPairs (fs : List (Bytes × Bytes)) : List Bytes := fs.flatMap cPair
 def cZItem (p : Bytes × Nat) : List Bytes := cString p.1 ++ [u64le p.2]
 def cZItems (zs : List (Bytes × Nat)) : List Bytes := zs.flatMap cZItem
+/-- the four `write_string` calls of the last-ID pseudo entry (3c61a3a) -/
+def cLastId (es : List SEntry) : List Bytes :=
+  cString lastIdMarker ++ (cString [49] ++ (cString (idText (lastId es)) ++ cString []))
 def cSEntry (e : SEntry) : List Bytes :=
   cString (idString e) ++ (cString (natDigits e.fields.length) ++ cPairs e.fields)
 def cSEntries (es : List SEntry) : List Bytes := es.flatMap cSEntry
@@ -50,7 +53,7 @@ def cValue : Value → List Bytes
   | .set xs => cLen xs.length ++ cStrings xs
   | .hash fs => cLen fs.length ++ cPairs fs
   | .zset zs => cLen zs.length ++ cZItems zs
-  | .stream es => cLen (1 + streamItems es) ++ (cString marker ++ cSEntries es)
+  | .stream es => cLen (1 + 4 + streamItems es) ++ (cString marker ++ (cLastId es ++ cSEntries es))
 
 def cKV (k : Bytes) (v : Value) : List Bytes := [typeByte v] :: (cString k ++ cValue v)
 
